@@ -30,4 +30,8 @@ def obligations(repo):
                     enforce="nvm_crc32", loops=True, unwind=8,
                     strength="U", functions=["nvm_crc32"],
                     must_have=[r"nvm_crc32\.postcondition", r"loop_invariant_step", r"loop_decreases|decreases"], min_checks=20))
+    # whole-function bounded stand-in, independent of the loop's shape (no extraction rule, no sidecar)
+    obs.append(dict(id="C12.crc.fold.bounded", prop="C12", harness="harness/crc_fold_h.c", entry="h_fold", unwind=10,
+                    unwindset=["crc32_init.0:257", "crc32_init.1:257"], strength="B(buffer size <= 6 bytes)", functions=["nvm_crc32", "crc32_init"],
+                    must_have=[r"C12\.crc\.fold", r"COVER"], min_checks=5, timeout=900, backends=["minisat", "kissat"]))
     return obs
